@@ -362,6 +362,68 @@ func runToolC15(cfg runCfg) {
 		os.RemoveAll(root)
 	}
 	w.flush()
+	// ---- converters of two packages selecting the SAME output file: they must agree on the package (path and name) ----
+	w2 := &shardWriter{dir: cfg.out, stem: "C15S", max: 200, rep: rep, off: cfg.oracleOnly,
+		header:  "From Coq Require Import List NArith String.\nFrom GV Require Import Base Paths.\nImport ListNotations. Open Scope N_scope.",
+		ctype:   "N * (rstr * rstr * option rstr) * (rstr * rstr * option rstr) * bool",
+		trailer: "(* (id, (package path, configured name, existing package name) of both converters, accepted) *)\nDefinition bad (c : N * (rstr * rstr * option rstr) * (rstr * rstr * option rstr) * bool) : bool :=\n  let '(_, (pa, na, ea), (pb, nb, eb), ok) := c in\n  negb (Bool.eqb (same_file_accepts (pa, effective_name na ea) (pb, effective_name nb eb)) ok).\nDefinition M := Eval vm_compute in map (fun c => fst (fst (fst c))) (filter bad cases). Print M.\n"}
+	type side struct{ pkgLine, path, name string }
+	shared := []struct {
+		label    string
+		file     string // output:file of both (relative to the module root via @cwd)
+		existing string
+		a, b     side
+	}{
+		{"agree on path:name", "@cwd/out/x.go", "", side{"example.org/m/out:alpha", "example.org/m/out", "alpha"}, side{"example.org/m/out:alpha", "example.org/m/out", "alpha"}},
+		{"agree, no name", "@cwd/out/x.go", "", side{"example.org/m/out", "example.org/m/out", ""}, side{"", "example.org/m/out", ""}},
+		{"names differ", "@cwd/out/x.go", "", side{"example.org/m/out:alpha", "example.org/m/out", "alpha"}, side{"example.org/m/out:beta", "example.org/m/out", "beta"}},
+		{"absent vs path:name", "@cwd/out/x.go", "", side{"", "example.org/m/out", ""}, side{"example.org/m/out:custom", "example.org/m/out", "custom"}},
+		{"paths differ", "@cwd/out/x.go", "", side{"example.org/m/out", "example.org/m/out", ""}, side{"example.org/m/other", "example.org/m/other", ""}},
+		{"existing package vs other name", "@cwd/a/existing/x.go", "realname", side{"", "example.org/m/a/existing", ""}, side{":other", "example.org/m/a/existing", "other"}},
+		{"existing package vs its own name", "@cwd/a/existing/x.go", "realname", side{"", "example.org/m/a/existing", ""}, side{":realname", "example.org/m/a/existing", "realname"}},
+		{"name only, both", "@cwd/out/x.go", "", side{":gamma", "example.org/m/out", "gamma"}, side{":gamma", "example.org/m/out", "gamma"}},
+	}
+	for i, sc := range shared {
+		root, _ := filepath.Abs(filepath.Join(cfg.out, fmt.Sprintf("sh%d", i)))
+		files := map[string]string{"go.mod": "module example.org/m\n\ngo 1.22\n", "a/existing/e.go": "package realname\n"}
+		for k, sd := range []side{sc.a, sc.b} {
+			var sb strings.Builder
+			fmt.Fprintf(&sb, "package p%d\n\n%s\n// goverter:converter\n// goverter:output:file %s\n", k+1, toolTypes, sc.file)
+			if sd.pkgLine != "" {
+				sb.WriteString("// goverter:output:package " + sd.pkgLine + "\n")
+			}
+			fmt.Fprintf(&sb, "type C%d interface {\n\tConv%d(source In) Out\n}\n", k+1, k+1)
+			files[fmt.Sprintf("a/p%d/conv.go", k+1)] = sb.String()
+		}
+		writeTree(root, files)
+		before := snapshot(root)
+		res := runCLI(bin, root, "gen", "./a/p1", "./a/p2")
+		created, changed, removed := diffSnap(before, snapshot(root))
+		ok := res.exit == 0
+		effName := func(sd side) string {
+			if sd.name != "" {
+				return sd.name
+			}
+			return sc.existing
+		}
+		expect := sc.a.path == sc.b.path && effName(sc.a) == effName(sc.b)
+		replay := map[string]interface{}{"case": sc.label, "output:file": sc.file, "output:package": []string{sc.a.pkgLine, sc.b.pkgLine}, "exit": res.exit, "stderr": firstLines(res.stderr, 8), "created": created}
+		rep.eval("shared:"+sc.label, true)
+		rep.count(fmt.Sprintf("shared-exit=%d", res.exit))
+		if ok != expect {
+			rep.violate(Violation{CaseID: fmt.Sprintf("S%d", i), What: fmt.Sprintf("two converters selecting the same output file (%s): expected accepted=%v, goverter exit status %d", sc.label, expect, res.exit), Sig: "shared-file-package-agreement", Replay: replay})
+		}
+		if !ok && len(created)+len(changed)+len(removed) > 0 {
+			rep.violate(Violation{CaseID: fmt.Sprintf("S%d", i), What: "failing run changed the tree", Sig: "fail-wrote", Replay: replay})
+		}
+		ex := "None"
+		if sc.existing != "" {
+			ex = "Some " + runes(sc.existing)
+		}
+		w2.add(fmt.Sprintf("(%d, (%s, %s, %s), (%s, %s, %s), %s)", 1000+i, runes(sc.a.path), runes(sc.a.name), ex, runes(sc.b.path), runes(sc.b.name), ex, coqBool(ok)))
+		os.RemoveAll(root)
+	}
+	w2.flush()
 	rep.write(cfg.out)
 }
 
